@@ -1,12 +1,21 @@
 """C02: settlement."""
-from props import endpoint, receiver
+import vlib
+from props import endpoint, receiver, resume
 
 
 def check(pid, tier, replay):
     names = ["da", "db", "dc", "lb"] if tier == "thorough" else ["a", "b", "lb"]
     gens = [("endpoint/SettleGen", "endpoint/SettleGen_%s.cfg" % n) for n in names] + receiver.gens(tier)[:2] + [("endpoint/SettleRaceGen", "endpoint/SettleRaceGen.cfg"), ("endpoint/StreamGen", "endpoint/StreamGen.cfg")] + endpoint.mix_gens(pid, tier)
-    endpoint.run(pid, tier, replay, ("C02_",), [("endpoint/Settle", None), ("endpoint/SettleRace", "endpoint/SettleRace.cfg")], gens,
+    verdict = vlib.Verdict(pid, tier)
+    # what a send resolves with when the link is resumed: the resumption table against the real decision function
+    rinfo = resume.stage(verdict, replay)
+    ev = endpoint.run(pid, tier, replay, ("C02_",), [("endpoint/Settle", None), ("endpoint/SettleRace", "endpoint/SettleRace.cfg")], gens,
                  "two sending links on one session (attached by a client, and accepted by a listener); every sequence up to the depth bound over {batchable send on either link, pre-settled send, dispositions: single id, "
                  "ranges over several deliveries and both links, settled / unsettled terminal states, non-terminal received, await of the k-th outcome}, rcv-settle-mode first and "
                  "second; the schedule of SettleRace.tla replayed through the schedule point send.after_enqueue; receiver side: the RecvGen scripts (dispositions the EUT emits for accept / accept_all / auto-accept); distinct = distinct scripts" + endpoint.MIX_RULE,
-                 negatives=[("endpoint/SettleRace", "endpoint/SettleRace_code.cfg", "C02_NothingLost")])
+                 negatives=[("endpoint/SettleRace", "endpoint/SettleRace_code.cfg", "C02_NothingLost")], verdict=verdict, finish=False)
+    ev["coverage"]["resumption_table"] = rinfo
+    ev["coverage"]["states"] += rinfo.get("states", 0)
+    ev["coverage"]["transitions"] += rinfo.get("transitions", 0)
+    ev["coverage"]["rule"] += "; plus every cell (local state x receiver's entry, 132 cells) of the link-resumption table of ResumeTable.tla put to the real resume_delivery through the hook verif::resume_decision"
+    verdict.finish(ev)
